@@ -1000,7 +1000,10 @@ impl<T> MiniVec<T> {
   ///
   pub fn reserve(&mut self, additional: usize) {
     let capacity = self.capacity();
-    let total_required = self.len() + additional;
+    let total_required = self
+      .len()
+      .checked_add(additional)
+      .expect("capacity overflow");
 
     if total_required <= capacity {
       return;
@@ -1031,7 +1034,7 @@ impl<T> MiniVec<T> {
     let capacity = self.capacity();
     let len = self.len();
 
-    let total_required = len + additional;
+    let total_required = len.checked_add(additional).expect("capacity overflow");
     if capacity >= total_required {
       return;
     }
